@@ -53,6 +53,18 @@ CLAIMED = {
         "6 C04",
         TECH,
     ),
+    "C05": (
+        "Bounded solver-based crash/resume check: the crash point is a symbolic integer over the file-system events of Pipeline.map (mkdir, "
+        "open-for-write, one flush per file, rename, rmtree, unlink; 19-60 events per template), with a symbolic torn-write kind (before the "
+        "write / half written / created-but-empty). After the simulated death a freshly built pipeline resumes with cleanup=False: it must "
+        "complete, equal the uninterrupted denotation for ALL integer inputs, not recompute elements whose files were complete, and recompute "
+        "no more than the interrupted invocation explains. Templates T1, T5, T7, T8, T13 x file_array / dict+persist; two successive crashes "
+        "in the thorough tier; user-function failure at a symbolic call index followed by a re-run.",
+        "Trusted: z3, CrossHair path exhaustion and builtin models; process death modelled as a BaseException at an intercepted FS event with torn "
+        "buffers; rename atomic; token pickle on a real tmpfs. Outside: worker processes dying under parallel=True, fsync-level reordering.",
+        "6 C05",
+        TECH,
+    ),
     "C06": (
         "Bounded solver-based check: for MAP-T templates with an independent axis (10 templates, every independent axis) the axis is partitioned "
         "into ints / negative ints / two slices / step-2 slices / negative-step slices, the parts are run with map(fixed_indices=..., cleanup=False) "
